@@ -20,7 +20,8 @@
    Statements only (proofs: Proofs/CorruptionProofs.v; CRC algebra: Proofs/CrcAlgebra.v). *)
 From BP7 Require Import Base.Prelude Gen.Consts Cbor.Item Spec.CrcSpec.
 From BP7 Require Import Model.Types Model.Encode Model.Decode Model.Wf.
-From BP7 Require Import Proofs.CrcAlgebra Proofs.CodecProofs Proofs.DecodeImage Proofs.SpecProofs Proofs.CorruptionProofs.
+From BP7 Require Import Model.Validate Model.Ops.
+From BP7 Require Import Proofs.CrcAlgebra Proofs.CodecProofs Proofs.DecodeImage Proofs.SpecProofs Proofs.CorruptionProofs Proofs.ReencProofs.
 
 (* ---- per block (generic theorems instantiated for the two block kinds) ---- *)
 (* stored c: a computed CRC value of the right length (Crc16 [2 bytes] / Crc32 [4 bytes]);
@@ -116,6 +117,17 @@ Proof. vm_compute. repeat split; reflexivity. Qed.
 Theorem C05_uncorrupted_passes : forall b0, wf_bundle b0 = true ->
   exists b', from_cbor (fst (to_cbor b0)) = Ok b' /\ b' = snd (to_cbor b0) /\ crc_valid b' = true.
 Proof. exact uncorrupted_passes. Qed.
+(* .. in particular what a forwarding node emits after it changed a received bundle (new payload through set_payload, new lifetime),
+   whatever CRC values the blocks arrived with: stale values are recomputed, never kept *)
+Theorem C05_reencoded_passes : forall b d l, wf_bundle b = true -> ext_block_by_type PAYLOAD_BLOCK (b_canonicals b) <> None ->
+  Nlen d < two64 -> l < two64 ->
+  exists b', from_cbor (fst (to_cbor (reenc b d l))) = Ok b' /\ b' = snd (to_cbor (reenc b d l)) /\ crc_valid b' = true.
+Proof. exact reencoded_passes. Qed.
+Example C05_ex_reencoded :     (* the witness bundle as received (CRC values filled in), payload replaced: premises hold, stored value was stale *)
+  wf_bundle (snd (to_cbor w_b0)) = true /\ ext_block_by_type PAYLOAD_BLOCK (b_canonicals (snd (to_cbor w_b0))) <> None
+  /\ crc_valid (reenc (snd (to_cbor w_b0)) (map n2b [1; 2; 3]) 12345) = false
+  /\ crc_valid (snd (to_cbor (reenc (snd (to_cbor w_b0)) (map n2b [1; 2; 3]) 12345))) = true.
+Proof. vm_compute. repeat split; try reflexivity. discriminate. Qed.
 Theorem C05_no_crc_passes : forall b,
   forallb (fun c => negb (has_crc c)) (block_crcs b) = true -> crc_valid b = true.
 Proof. exact no_crc_passes. Qed.
@@ -229,6 +241,7 @@ Print Assumptions C05_all_crc_emitted.
 Print Assumptions C05_full_refuted.
 Print Assumptions C05_full_refuted_shape.
 Print Assumptions C05_uncorrupted_passes.
+Print Assumptions C05_reencoded_passes.
 Print Assumptions C05_no_crc_passes.
 Print Assumptions C05_all_crcno_passes.
 Print Assumptions C05_crc16_detects_window.
